@@ -39,7 +39,7 @@ def parse_items(text):
             if m:
                 items.append(("fn", m.group(1), m.group(2), m.group(3), blocks))
         else:
-            m = re.match(r"const (.+?): (\w+) = (.*)$", head)
+            m = re.match(r"const (.+?): (\w+|\[\w+; \d+\]) = (.*)$", head)
             if m:
                 rhs = m.group(3).strip()
                 simple = rhs[:-1] if rhs.endswith(";") else None
@@ -61,9 +61,11 @@ def in_range(v, ty):
 
 
 class ConstEval:
-    def __init__(self, consts):
+    def __init__(self, consts, outer=None):
         self.consts = consts          # short name -> (ty, simple, blocks)
+        self.outer = outer or {}      # constants visible outside from_repr (a path-less operand names one of these first)
         self.cache = {}
+        self.outer_cache = {}
 
     def lit(self, tok, ty_hint=None):
         tok = tok.strip()
@@ -83,6 +85,11 @@ class ConstEval:
         m = re.match(r"const (.+)$", tok)
         if m:
             short = m.group(1).split("::")[-1]
+            if "::" not in m.group(1) and short in self.outer:
+                # `const NAME` without a path is an item of the enclosing module, never one of from_repr's own constants
+                if short not in self.outer_cache:
+                    self.outer_cache[short] = ConstEval(self.outer).value(short)
+                return self.outer_cache[short], self.outer[short][0]
             if short in self.consts:
                 return self.value(short), self.consts[short][0]
         raise Unsupported("constant operand " + tok)
@@ -107,6 +114,13 @@ class ConstEval:
             for st in blocks[bb]:
                 if st == "return;":
                     return env["_0"][0] if isinstance(env["_0"], tuple) and len(env["_0"]) == 2 and isinstance(env["_0"][1], str) else env["_0"]
+                m = re.match(r"assert\(move (_\d+), \"index out of bounds.*\) -> \[success: (bb\d+), unwind continue\];", st)
+                if m:
+                    c = env[m.group(1)]
+                    if not (c[0] if isinstance(c, tuple) else c):
+                        raise Unsupported("constant indexes out of bounds at compile time")
+                    bb = m.group(2)
+                    break
                 m = re.match(r"goto -> (bb\d+);", st)
                 if m:
                     bb = m.group(1)
@@ -186,6 +200,21 @@ class ConstEval:
         if m and m.group(2) in BITS:
             x, _ = self.operand(env, m.group(1))
             return (wrap(x, m.group(2)), m.group(2))
+        m = re.match(r"\[(.*)\]$", r)
+        if m:               # array aggregate: a python list of element values
+            return [self.operand(env, a)[0] for a in split_args(m.group(1))]
+        m = re.match(r"(?:copy|move) (_\d+)\[(_\d+)\]$", r)
+        if m:
+            arr, i = env[m.group(1)], env[m.group(2)]
+            ety = None
+            if isinstance(arr, tuple):
+                mt = re.match(r"\[(\w+); \d+\]$", arr[1] or "")
+                ety = mt.group(1) if mt else None
+                arr = arr[0]
+            i = i[0] if isinstance(i, tuple) else i
+            if not isinstance(arr, list) or not (0 <= i < len(arr)):
+                raise Unsupported("constant index " + r)
+            return (arr[i], ety) if ety else arr[i]
         if r.startswith(("copy ", "move ", "const ")):
             v, ty = self.operand(env, r)
             return (v, ty) if ty else v
@@ -211,16 +240,22 @@ def from_repr_vcs(text, enum_name, repr_ty, variants):
     if pty != repr_ty:
         raise Unsupported("from_repr takes %s, the discriminant type is %s" % (pty, repr_ty))
     consts = {}
+    outer = {}
+    in_from_repr = False              # the MIR dump prints a from_repr's own constants right after it, most of them without a path
     for it in items:
+        if it[0] == "fn":
+            in_from_repr = it[1].endswith("::from_repr")
         if it[0] == "const":
             consts.setdefault(it[1].split("::")[-1], (it[2], it[3], it[4]))
+            if "::" not in it[1] and not in_from_repr:
+                outer.setdefault(it[1], (it[2], it[3], it[4]))
     # constants belonging to THIS from_repr shadow same-named ones of other enums
     j = idx + 1
     while j < len(items) and not (items[j][0] == "fn" and not items[j][1].endswith("::from_repr")):
-        if items[j][0] == "const" and items[j][1].split("::")[-1].endswith("_DISCRIMINANT"):
+        if items[j][0] == "const" and items[j][1].split("::")[-1].endswith(("_DISCRIMINANT", "_DISCRIMINANTS")):
             consts[items[j][1].split("::")[-1]] = (items[j][2], items[j][3], items[j][4])
         j += 1
-    ev = ConstEval(consts)
+    ev = ConstEval(consts, outer)
     bits = BITS[pty]
     bvv = lambda v: "(_ bv%d %d)" % (v & ((1 << bits) - 1), bits)
     # symbolic execution of the test chain
